@@ -544,9 +544,20 @@ ROOTS = [
 ]
 
 
+def _generalise(p):
+    """NumPy style with an untyped parameter: the failure does not depend on the classes of the *other* parameters"""
+    if p.get("fmt") == "docstring" and p.get("style") == "numpydoc" and (
+        (p.get("field") == "parse" and p.get("observed") == "raises SyntaxError") or (p.get("field") == "default" and p.get("expected") == "str" and p.get("observed") == "str")
+    ):
+        p = {k: v for k, v in p.items() if k not in ("typ_classes", "default_kinds", "typ_class", "default_kind")}
+        p["untyped_param"] = True
+    return p
+
+
 def _build():
     out = []
     for f in RAW:
+        f = dict(f, pattern=_generalise(f["pattern"]))
         for pred, root, what, site in ROOTS:
             if pred(f["pattern"]):
                 out.append(dict(f, what="[%s] %s" % (root, what), site=site))
